@@ -750,7 +750,7 @@ pub fn run(thorough: bool, mut rng: Rng, mut out: Out) {
     parse_all(&mut out, &None);
     out.case("value none", true);
     for corpus in ["-", "30", "3000", "3003020101", "30060201010400", "300602010104", "0500", "30038001ff", "3003800161", "ff", "c328", "30050a01040400",
-                   "30060a01000400", "30030101", "3003010100", "300224800400", "30020100", "3005a003020101", "30053003020101", "30083006300402013100"] {
+                   "30060a01000400", "30030101", "3003010100", "300224800400", "30020100", "3005a003020101", "30053003020101", "3009300730050201013000", "300730050201013000"] {
         let v = unhex(corpus);
         out.case(&format!("value {}", corpus), true);
         parse_all(&mut out, &Some(v));
